@@ -142,6 +142,7 @@ class Model:
             self._index(mod)
         self.digest = h.hexdigest()
         self._resolve_bases()
+        self._normalise()
 
     # ---------------------------------------------------------------- indexing
 
@@ -216,6 +217,29 @@ class Model:
                     target = self.resolve_class_expr(mod, b)
                     if target is not None:
                         cls.bases.append(target)
+
+    def _normalise(self):
+        """Replace every function node by its normalised copy (sa.normalize) and re-index nested functions."""
+        from . import normalize
+        for mod in self.modules.values():
+            for f in list(mod.funcs.values()):
+                if f.parent is not None:
+                    continue
+                try:
+                    new = normalize.normalize_function(self, f)
+                except RecursionError:
+                    continue
+                self._replace(mod, f, new)
+
+    def _replace(self, mod, f, node):
+        f.orig = f.node
+        f.node = node
+        # drop and re-index nested functions
+        for key in [k for k, g in mod.funcs.items() if g is not f and k.startswith(f.qualname + '.')]:
+            del mod.funcs[key]
+        f.nested = {}
+        for sub in _direct_defs(node):
+            self._index_func(mod, sub, f'{f.qualname}.{sub.name}', f.cls, f)
 
     def resolve_class_expr(self, mod, expr):
         if isinstance(expr, ast.Name):
